@@ -430,6 +430,11 @@ func c04RunCfg(rep *vh.Report, c c04Cfg, W int64, quick bool) {
 				rep.Violate(clause, sig+":"+r.Kind+vIf(c.byTime, ":time", ":nr"), fmt.Sprintf("%s n=%d t=%d (AST=%d avail=[%d,%d] gone>%d): %s", c, n, t, ast, lo, hi, tg, msg),
 					map[string]any{"url": url, "config": c.String(), "n": n})
 			}
+			// the other safe method: HEAD is the same decision without the body
+			if hr := vDo(srv, "HEAD", url, nil); hr.Code != resp.Code {
+				rep.AddExecs(1)
+				viol("C04.mono", fmt.Sprintf("head-%d-get-%d", hr.Code, resp.Code), fmt.Sprintf("HEAD answers %d where GET answers %d", hr.Code, resp.Code))
+			}
 			ph := c04Phase(resp.Code)
 			if ph < 0 {
 				if resp.vCrashed() {
